@@ -155,7 +155,7 @@ func c12(c *an.Ctx) {
 				o.Site(chk)
 			}
 			name := an.QualName(fn)
-			if _, ok := exemptAPI[name]; ok {
+			if listedFunc(exemptAPI, name) {
 				continue
 			}
 			if fn.Parent() == nil && !ast.IsExported(fn.Name()) {
@@ -625,37 +625,16 @@ func loopCheckShape(fn *ssa.Function, chk ssa.Instruction, h *ssa.BasicBlock) bo
 			return false
 		}
 	}
-	// (c) loop condition i < len(chunk), i from 0 step 1
+	// (c) the loop visits i = 0, 1, ... below len(chunk) (range or counting form)
 	bo, ok := iff.Cond.(*ssa.BinOp)
-	if !ok || bo.Op != token.LSS {
+	if !ok || bo.Op != token.LSS || !an.IsRangeIndex(bo.X) {
 		return false
 	}
-	phi, ok := bo.X.(*ssa.Phi)
-	if !ok || len(phi.Edges) != 2 {
+	idx := bo.X
+	chunk := an.LoopSliceOf(idx)
+	if chunk == nil {
 		return false
 	}
-	zero, step := false, false
-	for _, e := range phi.Edges {
-		if n, ok := an.ConstInt(e); ok && n == 0 {
-			zero = true
-		}
-		if b2, ok := e.(*ssa.BinOp); ok && b2.Op == token.ADD && b2.X == ssa.Value(phi) {
-			if n, ok := an.ConstInt(b2.Y); ok && n == 1 {
-				step = true
-			}
-		}
-	}
-	if !zero || !step {
-		return false
-	}
-	lenCall, ok := bo.Y.(*ssa.Call)
-	if !ok {
-		return false
-	}
-	if b, ok := lenCall.Call.Value.(*ssa.Builtin); !ok || b.Name() != "len" {
-		return false
-	}
-	chunk := lenCall.Call.Args[0]
 	// the query comes from MakeBatch*Row(chunk)
 	cc := an.CallOf(chk)
 	q := an.StripConv(cc.Args[2])
@@ -691,23 +670,53 @@ func loopCheckShape(fn *ssa.Function, chk ssa.Instruction, h *ssa.BasicBlock) bo
 		b, ok := call.Call.Value.(*ssa.Builtin)
 		return ok && b.Name() == "len" && fieldOfQ(call.Call.Args[0], "Columns")
 	}
-	mulOf := func(v ssa.Value, isI func(ssa.Value) bool) bool {
-		bo, ok := v.(*ssa.BinOp)
-		if !ok || bo.Op != token.MUL {
-			return false
+	// window bounds as polynomials c1 + ci*i + cn*n + cin*i*n over the loop index i and n = len(q.Columns)
+	type poly struct{ c1, ci, cn, cin int64 }
+	var lin func(v ssa.Value, d int) (poly, bool)
+	lin = func(v ssa.Value, d int) (poly, bool) {
+		if d > 6 {
+			return poly{}, false
 		}
-		return (isI(bo.X) && isN(bo.Y)) || (isI(bo.Y) && isN(bo.X))
-	}
-	isI := func(v ssa.Value) bool { return v == ssa.Value(phi) }
-	isI1 := func(v ssa.Value) bool {
-		bo, ok := v.(*ssa.BinOp)
-		if !ok || bo.Op != token.ADD || bo.X != ssa.Value(phi) {
-			return false
+		if v == idx {
+			return poly{ci: 1}, true
 		}
-		n, ok := an.ConstInt(bo.Y)
-		return ok && n == 1
+		if isN(v) {
+			return poly{cn: 1}, true
+		}
+		if c, ok := an.ConstInt(v); ok {
+			return poly{c1: c}, true
+		}
+		b, ok := v.(*ssa.BinOp)
+		if !ok {
+			return poly{}, false
+		}
+		x, okx := lin(b.X, d+1)
+		y, oky := lin(b.Y, d+1)
+		if !okx || !oky {
+			return poly{}, false
+		}
+		switch b.Op {
+		case token.ADD:
+			return poly{x.c1 + y.c1, x.ci + y.ci, x.cn + y.cn, x.cin + y.cin}, true
+		case token.SUB:
+			return poly{x.c1 - y.c1, x.ci - y.ci, x.cn - y.cn, x.cin - y.cin}, true
+		case token.MUL:
+			// terms outside the basis (i*i, n*n, i*n*anything) are not representable
+			if x.ci*y.ci != 0 || x.cn*y.cn != 0 || x.cin*(y.ci+y.cn+y.cin) != 0 || y.cin*(x.ci+x.cn+x.cin) != 0 {
+				return poly{}, false
+			}
+			return poly{
+				c1:  x.c1 * y.c1,
+				ci:  x.c1*y.ci + x.ci*y.c1,
+				cn:  x.c1*y.cn + x.cn*y.c1,
+				cin: x.c1*y.cin + x.cin*y.c1 + x.ci*y.cn + x.cn*y.ci,
+			}, true
+		}
+		return poly{}, false
 	}
-	return mulOf(sl.Low, isI) && mulOf(sl.High, isI1)
+	lo, ok1 := lin(sl.Low, 0)
+	hi, ok2 := lin(sl.High, 0)
+	return ok1 && ok2 && lo == poly{cin: 1} && hi == poly{cn: 1, cin: 1}
 }
 
 // ancestors walks backwards from v through extracts, calls (receiver and
